@@ -923,5 +923,113 @@ pub fn generate(s: &mut Session, thorough: bool) -> bool {
             s.push_oracle("calhas", format!("calhas {which} {run}"), imp, why);
         }
     }
+
+    // ---- (11) documented run history (independent of the model and of the source's match arms):
+    // which runs share a calibration / a map is a documented fact (data file names, source comments,
+    // detector/CHANGELOG.md; the same record as lean/AlphaG/Spec/RunHistory.lean). History is
+    // immutable up to HORIZON: every run of a documented validity interval must see exactly what the
+    // first run of the interval sees, runs before the first interval see nothing, and consecutive
+    // intervals of a file-backed calibration / the PadWing layout differ.
+    const HORIZON: u32 = 11192;
+    let documented: [(&str, &[u32]); 9] = [
+        ("wire_baseline", &[7026]), ("wire_gain", &[9277, 11084]), ("wire_delay", &[7000]),
+        ("pad_baseline", &[9277, 11084]), ("pad_gain", &[9277, 11084]), ("pad_delay", &[7000]),
+        ("wiremap", &[2941]), ("pwbmap", &[4418, 10418]), ("wiremap-channel", &[2724]),
+    ];
+    let fingerprint = |which: &str, run: u32| -> Result<Vec<u64>, String> {
+        use alpha_g_physics::verif as v;
+        let which = which.to_string();
+        let a16 = a16.clone();
+        let pwb = pwb.clone();
+        guarded(move || {
+            let wires = || (0..256usize).map(|w| TpcWirePosition::try_from(w).unwrap());
+            let pads = || {
+                (0..32usize).flat_map(|c| {
+                    (0..576usize).map(move |r| TpcPadPosition {
+                        column: TpcPadColumn::try_from(c).unwrap(),
+                        row: TpcPadRow::try_from(r).unwrap(),
+                    })
+                })
+            };
+            const NONE: u64 = 0xFFFF_FFFF_FFFF_FFF1;
+            match which.as_str() {
+                "wire_baseline" => wires().map(|w| v::wire_baseline(run, w).map(|x| x as u16 as u64).unwrap_or(NONE)).collect(),
+                "wire_gain" => wires().map(|w| v::wire_gain(run, w).map(f64::to_bits).unwrap_or(NONE)).collect(),
+                "wire_delay" => vec![v::wire_delay(run).map(|x| x as u64).unwrap_or(NONE)],
+                "pad_baseline" => pads().map(|p| v::pad_baseline(run, p).map(|x| x as u16 as u64).unwrap_or(NONE)).collect(),
+                "pad_gain" => pads().map(|p| v::pad_gain(run, p).map(f64::to_bits).unwrap_or(NONE)).collect(),
+                "pad_delay" => vec![v::pad_delay(run).map(|x| x as u64).unwrap_or(NONE)],
+                "wiremap" | "wiremap-channel" => a16
+                    .iter()
+                    .flat_map(|b| (0..32u8).map(move |ch| (b.clone(), ch)))
+                    .map(|(b, ch)| match wire_impl(run, &b, ch) {
+                        Some(El::Ok(w)) => w as u64,
+                        _ => NONE,
+                    })
+                    .collect(),
+                _ => pwb
+                    .iter()
+                    .map(|b| match pwbpos_impl(run, b) {
+                        Some(El::Ok((c, r))) => (c * 1000 + r) as u64,
+                        _ => NONE,
+                    })
+                    .collect(),
+            }
+        })
+    };
+    for (which, steps) in documented {
+        // the wire map needs both the preamp map (2941) and the channel map (2724): nothing before 2941
+        let steps: &[u32] = if which == "wiremap-channel" { &[2941] } else { steps };
+        let mut probes: Vec<u32> = vec![0, 1, HORIZON, HORIZON - 1];
+        for (k, &st) in steps.iter().enumerate() {
+            let end = steps.get(k + 1).map(|x| x - 1).unwrap_or(HORIZON);
+            probes.extend([st.saturating_sub(2), st - 1, st, st + 1, st + 2, end, (st + end) / 2]);
+            for _ in 0..(if thorough { 200 } else { 12 }) {
+                probes.push(st + rng.below((end - st + 1) as u64) as u32);
+                probes.push(rng.below(steps[0] as u64) as u32);
+            }
+        }
+        if thorough {
+            probes.extend((0..=HORIZON).step_by(7));
+        }
+        probes.sort();
+        probes.dedup();
+        let reps: Vec<Result<Vec<u64>, String>> = steps.iter().map(|&st| fingerprint(which, st)).collect();
+        for k in 1..reps.len() {
+            if reps[k] == reps[k - 1] && !which.ends_with("delay") {
+                let run = steps[k];
+                let req = if which.contains("map") { format!("pwbpos {run} {}", pwb[0]) } else { format!("calhas {which} {run}") };
+                let imp = run_request(req.split(' ').next().unwrap(), &req.split(' ').skip(1).collect::<Vec<_>>()).unwrap();
+                s.push_oracle("documented-history", req, imp,
+                    Some(format!("documented history: {which} of run {run} must differ from that of run {} (a new calibration/layout starts there)", steps[k - 1])));
+            }
+        }
+        for run in probes {
+            let class = steps.iter().filter(|&&st| st <= run).count();
+            let fp = fingerprint(which, run);
+            let why = match (&fp, class) {
+                (Err(m), _) => Some(format!("lookup panicked: {m}")),
+                (Ok(v), 0) => {
+                    if v.iter().all(|&x| x == 0xFFFF_FFFF_FFFF_FFF1) { None } else {
+                        Some(format!("documented history: run {run} precedes the first {which} (run {}), yet the lookup succeeds", steps[0]))
+                    }
+                }
+                (Ok(v), c) => {
+                    if Ok(v) == reps[c - 1].as_ref() { None } else {
+                        let n = match &reps[c - 1] { Ok(r) => v.iter().zip(r).filter(|(a, b)| a != b).count(), Err(_) => v.len() };
+                        Some(format!("documented history: {which} of run {run} differs from that of run {} (first run of its documented validity interval) in {n} elements", steps[c - 1]))
+                    }
+                }
+            };
+            let req = match which {
+                "wiremap" | "wiremap-channel" => format!("wire {run} {} 0", a16[0]),
+                "pwbmap" => format!("pwbpos {run} {}", pwb[0]),
+                _ => format!("calhas {which} {run}"),
+            };
+            let parts: Vec<&str> = req.split(' ').collect();
+            let imp = run_request(parts[0], &parts[1..]).unwrap();
+            s.push_oracle("documented-history", req, imp, why);
+        }
+    }
     true
 }
